@@ -3,12 +3,13 @@ CONSTANTS
   Stacks <- StacksTimes
   Outcomes <- Out1
   TagOps <- TagOps2
-  Times = {"1", "2"}
+  Times = {"1", "2", "none"}
   MaxCalls = 9
   MaxTests = 1
   MaxRuns = 1
   MaxTagOps = 0
   MaxTimes = 3
+  MaxIds = 9
   AllowStop = FALSE
   AllowSetFF = FALSE
   AllowSkipNoStart = FALSE
